@@ -58,6 +58,18 @@ H = [
  ("cfg.py", "def _from_protobuf", None, (r"\bedge\b", "proto_edge"), ["C09"]),
  ("serialization.py", "        mapping = dict()", None, (r"\bmapping\b", "decoded"), ["C07"]),
  ("lazyintervaltree.py", "def add(", None, (r"\binterval\b", "iv"), ["C12", "C06"]),
+ ("module.py", "def _add_to_uuid_cache", "        for proxy in self.proxies:\n            proxy._add_to_uuid_cache(cache)\n"
+  "        for section in self.sections:\n            section._add_to_uuid_cache(cache)\n",
+  "        for section in self.sections:\n            section._add_to_uuid_cache(cache)\n"
+  "        for proxy in self.proxies:\n            proxy._add_to_uuid_cache(cache)\n", ["C03"]),
+ ("section.py", "class _ByteIntervalSet", "            self._node._index_add(v)\n            v._section = self._node\n",
+  "            v._section = self._node\n            self._node._index_add(v)\n", ["C04", "C06"]),
+ ("section.py", "class _ByteIntervalSet", "            if v not in self:\n                return\n",
+  "            if not (v in self):\n                return None\n", ["C04"]),
+ ("byteinterval.py", "def update(self, *iterables", None, ("new_items", "incoming"), ["C05", "C03"]),
+ ("ir.py", "class _ModuleList", "            v._ir = None\n            v._remove_from_uuid_cache(self._node._local_uuid_cache)\n",
+  "            v._remove_from_uuid_cache(self._node._local_uuid_cache)\n            v._ir = None\n", ["C03", "C04"]),
+ ("auxdata.py", "from typing import", None, (r"\b_lazy_container\b", "_pending"), ["C14", "C08"]),
  ("module.py", "def _to_protobuf", "        proto_module.rebase_delta = self.rebase_delta\n"
   "        proto_module.sections.extend(s._to_protobuf() for s in self.sections)\n",
   "        proto_module.sections.extend(s._to_protobuf() for s in self.sections)\n"
@@ -74,6 +86,8 @@ for idx, (fn, anchor, old, new, pids) in enumerate(H):
         j = src.index("\n    def ", i + 1) if "\n    def " in src[i + 1:] else len(src)
         k = src.index("\n    @", i + 1) if "\n    @" in src[i + 1:] else len(src)
         j = min(j, k)
+        if anchor.startswith("from "):      # rename throughout the file
+            i, j = 0, len(src)
         body = src[i:j]
         import re
         pat = new[0] if new[0].startswith("\\b") else r"\b%s\b" % re.escape(new[0])
